@@ -5,7 +5,7 @@
    Input  (fields separated by '|'):
      C <flush_rows> <flush_bytes> <max_bytes> <max_segment>
      W <batch>;<batch>;...      one field per writer; batch = <schema>:<size>:<ipc_len>:<replayed_size>:<id>,<ts>,...
-     S <label> ...              W<i>[a|b] | T[a|b] | R[a|b] | X | K | I (tick)
+     S <label> ...              W<i>[a|b] | T[a|b] | R[a|b] | X | K | Kr (crash, empty tail segment) | I (tick)
    Output:
      steps=<mode+buffer>,<chunks>,<flushed>,<wal segments>,<durable>/...
      res=<o|f|e|l per finished write>/...   cat=<ids of chunk>;... (sorted)   class=<|K1|K2>     *)
@@ -26,7 +26,8 @@ let parse_req (s : string) : wreq =
         rq_len = n_of_string plen; rq_rsize = n_of_string rsize }
   | _ -> failwith ("bad batch: " ^ s)
 
-let parse_label (s : string) : dlabel =
+let rec parse_label (s : string) : dlabel =
+  if s = "Kr" then DCrashRot else
   let n = String.length s in
   let last = s.[n - 1] in
   let (body, f) =
